@@ -101,10 +101,22 @@ fn wrap(link: u8, ip: &[u8]) -> Vec<u8> {
         1 => pkt::frame(Link::Ethernet, ip),
         2 => pkt::frame(Link::Null(0x1e), ip),
         3 => pkt::frame(Link::Null(0x02), ip),
-        _ => pkt::frame(Link::Null(0x1c), ip),
+        4 => pkt::frame(Link::Null(0x1c), ip),
+        // Ethernet frames whose MAC addresses read like the start of a raw IPv4 / IPv6 header (version nibble, protocol
+        // or next-header byte 6): only the order in which framings are tried tells them apart
+        5 => {
+            let mut f = pkt::frame(Link::Ethernet, ip);
+            f[..12].copy_from_slice(&[0x45, 0, 0, 0x28, 0, 0, 0x40, 0, 0x40, 0x06, 0, 0]);
+            f
+        }
+        _ => {
+            let mut f = pkt::frame(Link::Ethernet, ip);
+            f[..12].copy_from_slice(&[0x60, 0, 0, 0, 0, 0x14, 0x06, 0x40, 0x20, 0x01, 0, 0]);
+            f
+        }
     }
 }
-const LINKS: [&str; 5] = ["raw", "ethernet", "null-1e", "null-02", "null-1c"];
+const LINKS: [&str; 7] = ["raw", "ethernet", "null-1e", "null-02", "null-1c", "ethernet-macs-like-ipv4-header", "ethernet-macs-like-ipv6-header"];
 
 pub fn traces() -> Vec<Trace> {
     let mut v = vec![];
@@ -116,7 +128,7 @@ pub fn traces() -> Vec<Trace> {
             if v6 && ihl != 5 {
                 continue;
             }
-            for link in 0..5u8 {
+            for link in 0..7u8 {
                 for (cport, sport) in [(40000u16, 80u16), (40005, 443)] {
                     let mk = |from_client: bool, flags: u8, seq: u32, payload: &[u8]| -> Vec<u8> {
                         let (src, sp, dst, dp) = if from_client { (1u8, cport, 2u8, sport) } else { (2, sport, 1, cport) };
